@@ -248,6 +248,12 @@ func c09Main(r *engine.Run) {
 	}
 	r.Extra["type_pairs_covered"] = len(typePairs)
 	r.Sample("pair", pairCase{A: ops[n/3].WKT, B: ops[n-20].WKT})
+	{
+		cp := ConcurrentPairs(level)
+		if r.Parallel(len(cp), func(k int) { c09Pair(r, cp[k][0], cp[k][1], k%4 == 0) }) {
+			r.Bound(fmt.Sprintf("concurrent family: %d pairs with three edge interiors through one non-vertex lattice point", len(cp)))
+		}
+	}
 	// chained: results of the set operations against every operand of a reduced alphabet
 	{
 		parts := 13
